@@ -151,7 +151,7 @@ def main():
             f.write(apply(src, m))
         rec = dict(m, id=k)
         env = dict(os.environ, VERIF_REPO=d, VERIF_JOBS=opt["--checkjobs"], VERIF_OUT_DIR=os.path.join(d, "out"), VERIF_EVID_DIR=os.path.join(d, "evid"),
-                   VERIF_SEED=opt["--seed"])
+                   VERIF_SEED=opt["--seed"], VERIF_UNIT_TIMEOUT="60")
         t0 = time.time()
         imp = subprocess.run([PY, "-c", "import reactivex, reactivex.operators, reactivex.scheduler, reactivex.subject, reactivex.testing"],
                              env=dict(os.environ, PYTHONPATH=d, PYTHONDONTWRITEBYTECODE="1"), capture_output=True, text=True)
@@ -162,7 +162,7 @@ def main():
             rec["by"] = None
             for ck in check_ids:
                 try:
-                    p = subprocess.run([os.path.join(VERIF, "check"), ck, opt["--tier"]], env=env, capture_output=True, text=True, timeout=1500, cwd=VERIF)
+                    p = subprocess.run([os.path.join(VERIF, "check"), ck, opt["--tier"]], env=env, capture_output=True, text=True, timeout=300, cwd=VERIF)
                 except subprocess.TimeoutExpired:
                     rec["result"] = "check-timeout"
                     continue
